@@ -5,15 +5,21 @@ CONSTANTS
   Vals = {1, 2}
   MaxDepth = 3
   NR = 1
+  NT = 1
+  Writers = {1}
+  RdThreads = {1}
   MapInit = 10
+  UsedInit = 0
   Chunk = 10
   PutCost = 0
   TxnBeforeGate = FALSE
+  NestedCloseClearsMark = FALSE
+  ReadNotCounted = FALSE
   BatchMax = 1
   MaxOps = 7
   WithReads = FALSE
   Stride = 1
   Offset = 0
 VIEW View
-INVARIANTS TypeOK ShadowAgrees LookupTopDown NoMapFull WaiterOwnsNothing
+INVARIANTS TypeOK ShadowAgrees LookupTopDown NoMapFull WaiterOwnsNothing CountAgrees MarkAgrees NoRemapUnderTxn NoHolderParked GateLive
 PROPERTIES CommitAtomic ChildFolds DropNoTrace SnapStable ResizeStutter CrashDurable ResizeGate
